@@ -23,6 +23,7 @@ use axcut::syntax::statements::{
 use axcut::syntax::{
     BinOp, Chirality, ContextBinding, Def, Identifier, Prog, Statement, Ty, TypeDeclaration, TypingContext, XtorSig,
 };
+use std::collections::HashMap;
 use std::rc::Rc;
 
 type Kind = (Chirality, Ty);
@@ -48,6 +49,34 @@ struct G<'a> {
     sigs: Vec<(Identifier, Ctx)>,
     cur_def: usize,
     target: usize,
+    /// what is statically known about the value of a variable (ids are bound once per path, so one map
+    /// serves all paths): used only to spend the statement budget on the branch that will be EXECUTED
+    known: HashMap<usize, Val>,
+}
+
+#[derive(Clone, Debug)]
+enum Val {
+    Int(i64),
+    /// object built by `let`: xtor index and the ids of the field variables
+    Obj(usize, Vec<usize>),
+    /// closure whose clause number `.0` got the larger share of the budget
+    Clo(usize),
+}
+
+fn eval_op(op: &BinOp, a: i64, b: i64) -> Option<i64> {
+    match op {
+        BinOp::Sum => Some(a.wrapping_add(b)),
+        BinOp::Sub => Some(a.wrapping_sub(b)),
+        BinOp::Prod => Some(a.wrapping_mul(b)),
+        BinOp::Div => a.checked_div(b),
+        BinOp::Rem => a.checked_rem(b),
+    }
+}
+fn eval_cmp(s: &IfSort, a: i64, b: i64) -> bool {
+    match s {
+        IfSort::Equal => a == b, IfSort::NotEqual => a != b, IfSort::Less => a < b,
+        IfSort::LessOrEqual => a <= b, IfSort::Greater => a > b, IfSort::GreaterOrEqual => a >= b,
+    }
 }
 
 fn ident0(name: &str) -> Identifier { Identifier { name: name.to_string(), id: 0 } }
@@ -117,6 +146,11 @@ impl<'a> G<'a> {
     fn ext_vars(ctx: &Ctx) -> Vec<usize> {
         ctx.iter().enumerate().filter(|(_, b)| b.chi == Chirality::Ext).map(|(i, _)| i).collect()
     }
+    /// an `ext` variable as operand: half of the time one of the three most recent ones, so that results
+    /// flow into later operations, prints and the exit value (observability), otherwise any
+    fn pick_ext(&mut self, ex: &[usize]) -> usize {
+        if self.rng.chance(1, 2) { let k = ex.len().min(3); ex[ex.len() - 1 - self.rng.below(k)] } else { *self.rng.pick(ex) }
+    }
     /// for every kind a variable of the context having it (the same variable may serve twice)
     fn match_kinds(&mut self, ctx: &Ctx, kinds: &[Kind]) -> Option<Vec<usize>> {
         let mut picks = Vec::new();
@@ -140,6 +174,7 @@ impl<'a> G<'a> {
                 ContextBinding { var: self.fresh(&old.var.name), chi: old.chi.clone(), ty: old.ty.clone() }
             };
             used[i] = true;
+            if let Some(k) = self.known.get(&old.var.id).cloned() { self.known.insert(nb.var.id, k); }
             re.push((nb.clone(), old.var.clone()));
             new_ctx.push(nb);
         }
@@ -177,6 +212,23 @@ impl<'a> G<'a> {
         Statement::Substitute(Substitute { rearrange: re, next: Rc::new(next) })
     }
 
+    fn int_of(&self, id: usize) -> Option<i64> {
+        match self.known.get(&id) { Some(Val::Int(z)) => Some(*z), _ => None }
+    }
+    /// split a budget between the branch that will run (`Some(live)`) or a random favourite and the others
+    fn split_budget(&mut self, budget: usize, n: usize, live: Option<usize>) -> Vec<usize> {
+        if n == 0 { return vec![]; }
+        let fav = live.unwrap_or_else(|| self.rng.below(n));
+        let small = if live.is_some() { 2 } else { (budget / (3 * n)).max(1) };
+        let mut v = Vec::new();
+        let mut used = 0;
+        for i in 0..n {
+            if i == fav { v.push(0); } else { let b = self.rng.below(small + 1).min(budget.saturating_sub(used)); used += b; v.push(b); }
+        }
+        v[fav] = budget.saturating_sub(used);
+        v
+    }
+
     // ---------- terminal statements ----------
     fn terminal(&mut self, ctx: Ctx) -> Statement {
         // call a later definition
@@ -194,7 +246,10 @@ impl<'a> G<'a> {
             let c = *self.rng.pick(&clos);
             if let Ty::Decl(tn) = ctx[c].ty.clone() {
                 let decl = self.types.iter().find(|d| d.name == tn).unwrap().clone();
-                let start = self.rng.below(decl.xtors.len());
+                let start = match self.known.get(&ctx[c].var.id) {
+                    Some(Val::Clo(f)) if self.rng.chance(4, 5) => *f,
+                    _ => self.rng.below(decl.xtors.len()),
+                };
                 for o in 0..decl.xtors.len() {
                     let x = &decl.xtors[(start + o) % decl.xtors.len()];
                     let kinds: Vec<Kind> = x.args.bindings.iter().map(kind_of).collect();
@@ -217,16 +272,46 @@ impl<'a> G<'a> {
             let lit = self.rng.i64_interesting();
             return Statement::Literal(Literal { lit, var: v.clone(), next: Rc::new(Statement::Exit(Exit { var: v })), free_vars_next: None });
         }
-        let i = *self.rng.pick(&ex);
-        Statement::Exit(Exit { var: ctx[i].var.clone() })
+        // exit: often with a wrapping sum over several live integers, so that values computed on the
+        // path (in registers and spill slots) reach the observable result
+        let room = self.cfg.max_live.saturating_sub(ctx.len());
+        let k = if self.rng.chance(2, 3) { room.min(6).min(ex.len().saturating_sub(1)) } else { 0 };
+        let first = self.pick_ext(&ex);
+        if k == 0 { return Statement::Exit(Exit { var: ctx[first].var.clone() }); }
+        let mut others = Vec::new();
+        for _ in 0..k { others.push(self.pick_ext(&ex)); }
+        let mut vars = vec![ctx[first].var.clone()];
+        for _ in 0..k { vars.push(self.fresh("x")); }
+        let mut st = Statement::Exit(Exit { var: vars[k].clone() });
+        for j in (0..k).rev() {
+            st = Statement::Op(Op { fst: vars[j].clone(), op: BinOp::Sum, snd: ctx[others[j]].var.clone(), var: vars[j + 1].clone(), next: Rc::new(st), free_vars_next: None });
+        }
+        // sometimes every live integer (up to 12) is printed before (values in registers and spill slots)
+        if self.rng.chance(1, 3) {
+            for &i in ex.iter().rev().take(12) {
+                st = Statement::PrintI64(PrintI64 { newline: false, var: ctx[i].var.clone(), next: Rc::new(st), free_vars_next: None });
+            }
+        }
+        st
     }
 
     // ---------- statements ----------
     fn literal(&mut self, mut ctx: Ctx, budget: usize, lit: i64) -> Statement {
         let b = self.fresh_binding(&Self::ext_kind());
         let var = b.var.clone();
+        self.known.insert(var.id, Val::Int(lit));
         ctx.push(b);
         Statement::Literal(Literal { lit, var, next: Rc::new(self.stmt(ctx, budget)), free_vars_next: None })
+    }
+
+    /// the rest of the program after a result was computed: a third of the time the result is printed
+    /// first, so that a wrong result is observable whatever happens to the variable later
+    fn observed(&mut self, var: &Identifier, ctx: Ctx, budget: usize) -> Statement {
+        if self.rng.chance(1, 3) {
+            let newline = self.rng.chance(1, 2);
+            let next = self.stmt(ctx, budget);
+            Statement::PrintI64(PrintI64 { newline, var: var.clone(), next: Rc::new(next), free_vars_next: None })
+        } else { self.stmt(ctx, budget) }
     }
 
     fn stmt(&mut self, ctx: Ctx, budget: usize) -> Statement {
@@ -262,44 +347,59 @@ impl<'a> G<'a> {
             return self.literal(ctx, budget, lit);
         }
         if take!(w_op) {
-            let a = *self.rng.pick(&ex);
+            let a = self.pick_ext(&ex);
             let op = match self.rng.below(5) { 0 => BinOp::Sum, 1 => BinOp::Sub, 2 => BinOp::Prod, 3 => BinOp::Div, _ => BinOp::Rem };
             let dangerous = matches!(op, BinOp::Div | BinOp::Rem);
             if dangerous && !self.rng.chance(1, 8) && len + 2 <= cap {
                 // divide by a fresh non-zero literal (also not -1, so min_int / -1 cannot happen)
-                let mut lit = self.rng.i64_interesting();
+                // half of the divisors are small, so that quotients are rarely 0 (a wrong quotient/remainder
+                // sequence must not be right by accident)
+                let mut lit = if self.rng.chance(1, 2) { let m = 2 + self.rng.below(8) as i64; if self.rng.chance(1, 4) { -m } else { m } } else { self.rng.i64_interesting() };
                 if lit == 0 || lit == -1 { lit = 1 + self.rng.below(9) as i64; }
                 let mut ctx2 = ctx.clone();
                 let d = self.fresh_binding(&Self::ext_kind());
                 ctx2.push(d.clone());
                 // target/operand placement: the divisor is the newest variable, the dividend any
                 let res = self.fresh_binding(&Self::ext_kind());
+                self.known.insert(d.var.id, Val::Int(lit));
+                if let Some(x) = self.int_of(ctx[a].var.id) { if let Some(z) = eval_op(&op, x, lit) { self.known.insert(res.var.id, Val::Int(z)); } }
                 let mut ctx3 = ctx2.clone();
                 ctx3.push(res.clone());
-                let next = self.stmt(ctx3, budget);
+                let next = self.observed(&res.var, ctx3, budget);
                 let opst = Statement::Op(Op { fst: ctx[a].var.clone(), op, snd: d.var.clone(), var: res.var, next: Rc::new(next), free_vars_next: None });
                 return Statement::Literal(Literal { lit, var: d.var, next: Rc::new(opst), free_vars_next: None });
             }
-            let b = *self.rng.pick(&ex);
+            let b = self.pick_ext(&ex);
             let res = self.fresh_binding(&Self::ext_kind());
+            // a division whose operands are known and which would be undefined ends the run there: use a sum instead
+            let mut op = op;
+            if let (Some(x), Some(y)) = (self.int_of(ctx[a].var.id), self.int_of(ctx[b].var.id)) {
+                if eval_op(&op, x, y).is_none() { op = BinOp::Sum; }
+                if let Some(z) = eval_op(&op, x, y) { self.known.insert(res.var.id, Val::Int(z)); }
+            }
             let mut ctx2 = ctx.clone();
             ctx2.push(res.clone());
-            let next = self.stmt(ctx2, budget);
+            let next = self.observed(&res.var, ctx2, budget);
             return Statement::Op(Op { fst: ctx[a].var.clone(), op, snd: ctx[b].var.clone(), var: res.var, next: Rc::new(next), free_vars_next: None });
         }
         if take!(w_print) {
-            let a = *self.rng.pick(&ex);
+            let a = self.pick_ext(&ex);
             let var = ctx[a].var.clone();
             let newline = self.rng.chance(1, 2);
             return Statement::PrintI64(PrintI64 { newline, var, next: Rc::new(self.stmt(ctx, budget)), free_vars_next: None });
         }
         if take!(w_ifc) {
-            let a = *self.rng.pick(&ex);
-            let snd = if self.rng.chance(1, 2) { None } else { Some(ctx[*self.rng.pick(&ex)].var.clone()) };
+            let a = self.pick_ext(&ex);
+            let snd = if self.rng.chance(1, 2) { None } else { Some(ctx[self.pick_ext(&ex)].var.clone()) };
             let sort = match self.rng.below(6) { 0 => IfSort::Equal, 1 => IfSort::NotEqual, 2 => IfSort::Less, 3 => IfSort::LessOrEqual, 4 => IfSort::Greater, _ => IfSort::GreaterOrEqual };
-            let b1 = self.rng.below(budget + 1);
-            let thenc = self.stmt(ctx.clone(), b1);
-            let elsec = self.stmt(ctx.clone(), budget - b1);
+            let live = match (self.int_of(ctx[a].var.id), &snd) {
+                (Some(x), None) => Some(if eval_cmp(&sort, x, 0) { 0 } else { 1 }),
+                (Some(x), Some(v)) => self.int_of(v.id).map(|y| if eval_cmp(&sort, x, y) { 0 } else { 1 }),
+                _ => None,
+            };
+            let bs = self.split_budget(budget, 2, live);
+            let thenc = self.stmt(ctx.clone(), bs[0]);
+            let elsec = self.stmt(ctx.clone(), bs[1]);
             return Statement::IfC(IfC { sort, fst: ctx[a].var.clone(), snd, thenc: Rc::new(thenc), elsec: Rc::new(elsec) });
         }
         if take!(w_subst) {
@@ -318,7 +418,8 @@ impl<'a> G<'a> {
             let decl = self.types[t].clone();
             let start = self.rng.below(decl.xtors.len());
             for o in 0..decl.xtors.len() {
-                let x = &decl.xtors[(start + o) % decl.xtors.len()];
+                let xi = (start + o) % decl.xtors.len();
+                let x = &decl.xtors[xi];
                 let kinds: Vec<Kind> = x.args.bindings.iter().map(kind_of).collect();
                 if let Some(arg_picks) = self.match_kinds(&ctx, &kinds) {
                     // sometimes the fields stay live elsewhere too (shared), mostly they are moved
@@ -333,6 +434,7 @@ impl<'a> G<'a> {
                         let args: Ctx = nc[split..].to_vec();
                         let mut rest: Ctx = nc[..split].to_vec();
                         let v = g.fresh_binding(&(Chirality::Prd, ty.clone()));
+                        g.known.insert(v.var.id, Val::Obj(xi, args.iter().map(|b| b.var.id).collect()));
                         rest.push(v.clone());
                         let next = g.stmt(rest, budget);
                         Statement::Let(Let { var: v.var, ty, tag, args: tc(args), next: Rc::new(next), free_vars_next: None })
@@ -352,17 +454,23 @@ impl<'a> G<'a> {
             let mut picks: Vec<usize> = if self.rng.chance(1, 2) { (0..len).filter(|&i| i != s).collect() } else { self.others(&ctx, &[s], cap) };
             picks.truncate(cap.saturating_sub(maxargs + 1));
             picks.push(s);
-            let per = budget / decl.xtors.len();
             return self.with_subst(&ctx, &picks, |g, nc| {
                 let var = nc.last().unwrap().var.clone();
                 let ty = nc.last().unwrap().ty.clone();
                 let rest: Ctx = nc[..nc.len() - 1].to_vec();
+                let shape = match g.known.get(&var.id) { Some(Val::Obj(i, fs)) => Some((*i, fs.clone())), _ => None };
+                let bs = g.split_budget(budget, decl.xtors.len(), shape.as_ref().map(|p| p.0));
                 let mut clauses = Vec::new();
-                for x in &decl.xtors {
+                for (xi, x) in decl.xtors.iter().enumerate() {
                     let cx: Ctx = x.args.bindings.iter().map(|b| g.fresh_binding(&kind_of(b))).collect();
+                    if let Some((i, fs)) = &shape {
+                        if *i == xi {
+                            for (b, f) in cx.iter().zip(fs.iter()) { if let Some(k) = g.known.get(f).cloned() { g.known.insert(b.var.id, k); } }
+                        }
+                    }
                     let mut body_ctx = rest.clone();
                     body_ctx.extend(cx.iter().cloned());
-                    let body = g.stmt(body_ctx, per);
+                    let body = g.stmt(body_ctx, bs[xi]);
                     clauses.push(Clause { xtor: x.name.clone(), context: tc(cx), body: Rc::new(body) });
                 }
                 Statement::Switch(Switch { var, ty, clauses, free_vars_clauses: None })
@@ -382,16 +490,21 @@ impl<'a> G<'a> {
             let ty = Ty::Decl(decl.name.clone());
             let v = self.fresh_binding(&(Chirality::Cns, ty.clone()));
             rest.push(v.clone());
-            let per = budget / (decl.xtors.len() + 1);
+            // the clause that the favourite `invoke` will select gets about half of the budget, the
+            // continuation the other half, the remaining clauses a few statements
+            let fav = self.rng.below(decl.xtors.len());
+            self.known.insert(v.var.id, Val::Clo(fav));
+            let half = budget / 2;
+            let bs = self.split_budget(half, decl.xtors.len(), Some(fav));
             let mut clauses = Vec::new();
-            for x in &decl.xtors {
+            for (xi, x) in decl.xtors.iter().enumerate() {
                 let cx: Ctx = x.args.bindings.iter().map(|b| self.fresh_binding(&kind_of(b))).collect();
                 let mut body_ctx = cx.clone();
                 body_ctx.extend(env.iter().cloned());
-                let body = self.stmt(body_ctx, per);
+                let body = self.stmt(body_ctx, bs[xi]);
                 clauses.push(Clause { xtor: x.name.clone(), context: tc(cx), body: Rc::new(body) });
             }
-            let next = self.stmt(rest, budget - per * decl.xtors.len());
+            let next = self.stmt(rest, budget - half);
             Statement::Create(Create { var: v.var, ty, context: Some(tc(env)), clauses, free_vars_clauses: None, next: Rc::new(next), free_vars_next: None })
         }
     }
@@ -399,7 +512,7 @@ impl<'a> G<'a> {
 
 /// One program from the generator state `rng`.
 pub fn gen_program(rng: &mut Rng, cfg: &Cfg) -> Prog {
-    let mut g = G { rng, cfg: cfg.clone(), next_id: 0, types: Vec::new(), sigs: Vec::new(), cur_def: 0, target: 0 };
+    let mut g = G { rng, cfg: cfg.clone(), next_id: 0, types: Vec::new(), sigs: Vec::new(), cur_def: 0, target: 0, known: HashMap::new() };
     g.gen_types();
     g.gen_sigs();
     let mut defs = Vec::new();
